@@ -816,7 +816,12 @@ def rule_recompile_like_fresh(ctx: Ctx, rid="C11.RECOMPILED-LIKE-FRESH", consequ
                 continue
             followed += 1
             label = f"construct({prev.label}); recompile({nxt.label})"
-            if after != fresh:
+            def _code(t):
+                try:
+                    return ast.dump(ast.parse(t))
+                except SyntaxError:
+                    return t
+            if after != fresh and _code(after) != _code(fresh):        # comments and layout of the text are not behaviour
                 import difflib
                 d = [l for l in difflib.unified_diff(fresh.splitlines(), after.splitlines(), lineterm="", n=0) if l[:1] in "+-" and l[:3] not in ("+++", "---")]
                 ctx.rep.bad(rid, con + f"[{label}]", "a recompiled evaluator does not compile the text a fresh evaluator of the same source compiles: "
